@@ -11,6 +11,11 @@ _m(
     "in [0,h)x[0,w) (identical images | integers | reals with fractional parts incl. 0.5, 0.49, 0.01, 0.99; one axis may stay "
     "integer) and, for numpy, fft_input x return_shifted_image x fft_output x max_shift (None | |s_centred| + {2.5,4,16,1000}; "
     "for integer shifts also + {0.25,0.5,1,1.5}).  "
+    "HISTORY dimension: in ~40% of the cases the input arrays are built once (real-space images and, for Fourier-space input, "
+    "their FFTs; float64 torch tensors are views of the same numpy memory) and 1-2 further registrations run on the SAME array "
+    "objects with independently drawn settings (estimator numpy/torch as the input kind allows, upsample_factor, "
+    "return_shifted_image/fft_output, max_shift, roles of the two images swapped); every call must satisfy the assertions of a "
+    "single call (class label reused_inputs); cases without a history hand freshly built arrays to every call.  "
     "The moving image is T_s(ref) from the harness's own float64 Fourier translation (np.roll for integers).  A case is "
     "NON-TRIVIAL when the shift is non-integer with upsample_factor >= 2 and inside the sub-pixel domain guards, or some "
     "component of s exceeds half the image size, or the image is not square; distinct = SHA-1 of the canonical JSON of the case.",
